@@ -1,6 +1,7 @@
 package props
 
 import (
+	"context"
 	"fmt"
 	"math/rand"
 	"runtime"
@@ -73,6 +74,17 @@ func runC03(c *Ctx) error {
 	T := c.Trace("MessageTrace")
 	kinds := []string{"new", "zero", "copyAcked", "copyNacked"}
 
+	// ---- (0) the very first settlement of a struct-literal message in this process is a Nack (before any such message was acked):
+	// its Nacked() channel is closed by it like anybody's
+	{
+		r := T.NewRun("seq/zero", map[string]any{"kind": "zero"})
+		r.Key = "first-in-process/zero-nack"
+		m := c03NewMessage("zero", "first")
+		for _, op := range []string{"RdNack", "Nack", "RdNack", "RdAck", "Ack", "RdNack"} {
+			r.Emit("op", "g", "g0", "op", op, "res", c03Do(m, op))
+		}
+		r.NonTrivial = true
+	}
 	// ---- (1) all sequential histories of length N (prefix-closed: shorter ones are prefixes)
 	N := c.Pick(5, 8)
 	total := 1
@@ -102,6 +114,12 @@ func runC03(c *Ctx) error {
 			defer close(done)
 			p, v := Guarded(func() {
 				m := c03NewMessage(j.kind, fmt.Sprintf("r%d", r.ID))
+				if j.idx%3 == 0 {
+					// the message travels with a context that is over already (an abandoned delivery): settling it is settling it
+					dctx, dcancel := context.WithDeadline(context.Background(), time.Now().Add(-time.Second))
+					dcancel()
+					m.SetContext(dctx)
+				}
 				// an observer took the two channels of a constructor-built message at the start and keeps looking at THOSE
 				var heldAck, heldNack <-chan struct{}
 				if j.kind == "new" {
